@@ -41,7 +41,6 @@ Inductive Core : ty -> Prop :=
 | Co_UnitSum n : Core (TUnitSum n) | Co_Var i b : Core (TVar i b) | Co_RowVar i b : Core (TRowVar i b)
 | Co_USize : Core TUSize | Co_Qubit : Core TQubit | Co_Alias n b : Core (TAlias n b)
 | Co_Func i o r : Forall Core i -> Forall Core o -> Core (TFunc i o r)
-| Co_Poly ps i o r : Forall Core i -> Forall Core o -> Core (TPoly ps i o r)
 | Co_Opaque e id a b : Forall CoreA a -> Core (TOpaque e id a b)
 with CoreA : tyarg -> Prop :=
 | CoA_Type t : Core t -> CoreA (AType t)
